@@ -1,7 +1,11 @@
 (* ops_krylov.ml -- model side of harness/drv_krylov.cpp (C01, C05, C15).
-   solve / seq    : the extracted workspace models (Krylov.v) started from a junk workspace
-                    (every cell = 17/3; the implementation starts from zero-initialised members,
-                    so a junk-dependent model would disagree)
+   solve / seq    : the extracted workspace models (Krylov.v, KrylovIdrs.v) started from a junk
+                    workspace (every cell = 17/3; the implementation starts from zero-initialised
+                    members, so a junk-dependent model would disagree).  For idrs the case line of
+                    the model carries s extra vectors at its end: the raw std::mt19937 draws of the
+                    constructor (printed by the implementation-side op idrs.raw); the model
+                    orthonormalises them itself (KrylovIdrs.idrs_shadow)
+   idrs.shadow    : the constructor's shadow space alone (compared with the object's private P)
    ref            : the independent textbook recurrences (KrylovRef.v)
    o.truth        : C01 oracle evaluated on the implementation's output by the extracted
                     specification Krylov.true_res
@@ -26,6 +30,10 @@ let zeros n = List.init n (fun _ -> zero)
 let op_of (a : Crs.crs) = let n = List.length a.Crs.rows in fun v -> Kernels.spmv sc one a v zero (zeros n)
 
 type call = { a : Crs.crs; opA : Obj.t list -> Obj.t list; opP : Obj.t list -> Obj.t list; f : Obj.t list; x0 : Obj.t list }
+(* idrs: the s raw vectors at the end of a model-side case line -> index map (junk outside [0,s)) *)
+let t_raw (s : int) t : int -> Obj.t list =
+  let vs = Array.of_list (List.init s (fun _ -> t_vec t)) in
+  fun i -> if i >= 0 && i < s then vs.(i) else []
 let t_call_pk pk t =
   let a = t_crs t in
   let opP = match pk with
@@ -47,14 +55,21 @@ let show_out (o : Krylov.kout) = match o with
   | Krylov.KOk r -> if r.Krylov.k_oof then "MODEL-OUT-OF-FUEL" else
       string_of_int r.Krylov.k_it ^ " " ^ show_s r.Krylov.k_res ^ " " ^ show_vec r.Krylov.k_x
 
-let modelled = ["cg"; "bicgstab"; "richardson"; "gmres"; "fgmres"; "lgmres"; "bicgstabl"]
+let iprm (p : prm) : KrylovIdrs.iprm =
+  { KrylovIdrs.ip_k = kprm p false; ip_s = p.s; ip_omega = p.omega; ip_smooth = p.smoothing; ip_repl = p.replacement }
+
+let modelled = ["cg"; "bicgstab"; "richardson"; "gmres"; "fgmres"; "lgmres"; "bicgstabl"; "idrs"]
 
 (* workspace of a solver object: junk-filled scratch for a fresh object (the object state that is
    NOT scratch -- the LGMRES buffer of augmentation vectors -- starts empty as in the constructor) *)
 type ws = WCg of Krylov.cg_ws | WRi of Krylov.ri_ws | WBs of Krylov.bs_ws | WGm of Krylov.gm_ws | WLg of Krylov.lg_ws | WBl of Krylov.bl_ws
+        | WId of KrylovIdrs.id_ws * (int -> Obj.t list)      (* scratch + the constant shadow space built by the constructor *)
 let junk_gm n = { Krylov.g_H = (fun _ _ -> junkv); g_s = (fun _ -> junkv); g_cs = (fun _ -> junkv); g_sn = (fun _ -> junkv);
                   g_r = jvec n; g_v = (fun _ -> jvec n); g_z = (fun _ -> jvec n) }
-let fresh_ws name n : ws = match name with
+let fresh_ws ?(raw = fun _ -> []) ?(s = 0) name n : ws = match name with
+  | "idrs" -> WId ({ KrylovIdrs.d_M = (fun _ _ -> junkv); d_f = (fun _ -> junkv); d_c = (fun _ -> junkv); d_r = jvec n; d_v = jvec n;
+                     d_t = jvec n; d_xs = jvec n; d_rs = jvec n; d_G = (fun _ -> jvec n); d_U = (fun _ -> jvec n) },
+                   KrylovIdrs.idrs_shadow sc s raw)
   | "cg" -> WCg { Krylov.cg_r = jvec n; cg_s = jvec n; cg_p = jvec n; cg_q = jvec n }
   | "richardson" -> WRi { Krylov.ri_r = jvec n; ri_s = jvec n }
   | "bicgstab" -> WBs { Krylov.bs_r = jvec n; bs_p = jvec n; bs_v = jvec n; bs_s = jvec n; bs_t = jvec n; bs_rh = jvec n; bs_T = jvec n }
@@ -73,10 +88,11 @@ let call_model name (p : prm) left (c : call) (w : ws) : string * ws =
   | "fgmres", WGm w -> let (o, w') = Krylov.fgmres sc c.opA c.opP kp c.f c.x0 w in (show_out o, WGm w')
   | "lgmres", WLg w -> let (o, w') = Krylov.lgmres sc c.opA c.opP kp c.f c.x0 w in (show_out o, WLg w')
   | "bicgstabl", WBl w -> let (o, w') = Krylov.bicgstabl sc c.opA c.opP kp c.f c.x0 w in (show_out o, WBl w')
+  | "idrs", WId (w, sh) -> let (o, w') = KrylovIdrs.idrs sc c.opA c.opP sh (iprm p) c.f c.x0 w in (show_out o, WId (w', sh))
   | _ -> ("UNSUPPORTED-SOLVER", w)
-let run_model name (p : prm) left (c : call) : string =
+let run_model ?raw name (p : prm) left (c : call) : string =
   if not (List.mem name modelled) then "UNSUPPORTED-SOLVER"
-  else fst (call_model name p left c (fresh_ws name (List.length c.f)))
+  else fst (call_model name p left c (fresh_ws ?raw ~s:p.s name (List.length c.f)))
 
 let show_ref o = match o with
   | None -> "EXC runtime_error"
@@ -99,7 +115,9 @@ let () =
   let solve_like runner t =
     let (name, left) = head t in let pk = t_s t in let p = t_prm t in let c = t_call_pk pk t in
     runner name p left c in
-  reg "solve" (solve_like run_model);
+  reg "solve" (fun t ->
+    let (name, left) = head t in let pk = t_s t in let p = t_prm t in let c = t_call_pk pk t in
+    if name = "idrs" then (let raw = t_raw p.s t in run_model ~raw name p left c) else run_model name p left c);
   reg "ref" (solve_like run_ref);
   (* seq: ONE model object, the state returned by a call is the state the next call starts from;
      seqfresh: a fresh (junk) object per call *)
@@ -107,13 +125,20 @@ let () =
     let (name, left) = head t in let p = t_prm t in
     let n = t_i t in let nc = t_i t in
     if not (List.mem name modelled) then "UNSUPPORTED-SOLVER" else begin
-      let w = ref (fresh_ws name n) in
-      let outs = List.init nc (fun _ ->
-        let pk = t_s t in let c = t_call_pk pk t in
-        let (o, w') = call_model name p left c (if thread then !w else fresh_ws name n) in
-        w := w'; o) in
+      let calls = List.init nc (fun _ -> let pk = t_s t in t_call_pk pk t) in
+      let raw = if name = "idrs" then t_raw p.s t else (fun _ -> []) in
+      let fresh () = fresh_ws ~raw ~s:p.s name n in
+      let w = ref (fresh ()) in
+      let outs = List.map (fun c ->
+        let (o, w') = call_model name p left c (if thread then !w else fresh ()) in
+        w := w'; o) calls in
       String.concat " ; " outs end in
   reg "seq" (seq true); reg "seqfresh" (seq false);
+  (* idrs.shadow <n> <s> <raw vectors>: the shadow space the constructor builds from the raw draws *)
+  reg "idrs.shadow" (fun t ->
+    let _n = t_i t in let s = t_i t in let raw = t_raw s t in
+    let sh = KrylovIdrs.idrs_shadow sc s raw in
+    String.concat " " (List.init s (fun i -> show_vec (sh i))));
   reg "richk" (fun t ->
     let (_, _) = head t in let pk = t_s t in let p = t_prm t in let c = t_call_pk pk t in
     show_vec (KrylovRef.rich_iter sc c.opA c.opP p.damping c.f p.maxiter c.x0));
